@@ -24,7 +24,7 @@ ASSUMPTIONS = [
     "attach and replace without deletion do not change the registry",
 ]
 REQUIRED = ["op:create", "op:copy", "op:from_xml", "op:from_json", "op:attach", "op:replace_delete", "op:replace_keep", "op:prune",
-            "op:prune_strict", "op:expand", "op:delete", "op:delete_keep_children", "op:forget", "ops_discarding", "ops_creating"]
+            "op:prune_strict", "op:expand", "op:delete", "op:delete_keep_children", "op:forget", "op:replace_rejected", "id_stress_nodes", "ops_discarding", "ops_creating"]
 EXHAUSTIVE = {"quick": False, "thorough": False}
 
 
@@ -163,7 +163,7 @@ def one_history(ctx, gen, hno):
     for step in range(60):
         before = dict(Node.store)
         ops = ["create", "create", "copy", "from_xml", "from_json", "attach", "replace_delete", "replace_keep", "prune", "prune_strict",
-               "expand", "delete", "delete_keep_children", "forget"]
+               "expand", "delete", "delete_keep_children", "forget", "replace_rejected"]
         op = rng.choice(ops)
         if live_count() > 200:
             op = "delete"
@@ -250,6 +250,27 @@ def one_history(ctx, gen, hno):
                 mon.check(op, before, created, discarded, wit)
                 history[-1] = [op, f"tree of {len(rb)} nodes, {k} references"]
                 held.append(t)
+            elif op == "replace_rejected" and len(held) >= 2:
+                # a replace that must be refused (the 'old' node is not a child of the receiver): nothing may leave the registry
+                a, b = rng.sample(range(len(held)), 2)
+                p = rng.choice(snapshot.walk(held[a]))
+                cands = [n for n in snapshot.walk(held[b]) if n.parent is not None]
+                if not cands:
+                    continue
+                old = rng.choice(cands)
+                new = Node(old.name, content="replacement")
+                before = dict(Node.store)
+                history.append([op, p.name, old.name])
+                refused = False
+                try:
+                    p.replace_child(old, new) if rng.random() < 0.5 else p.replace_child(old, new, delete_old=True)
+                    ctx.count("rejected_replace_was_accepted")
+                except Exception:
+                    refused = True
+                mon.check("replace_rejected", before, [], [], wit)
+                if refused:
+                    new.parent = None
+                    held.append(new)
             elif op == "forget" and held:
                 # the caller keeps only ids (as a service does between requests): nodes must stay retrievable until deleted
                 i = rng.randrange(len(held))
@@ -310,6 +331,27 @@ def one_history(ctx, gen, hno):
     emlkit.discard(*held)
 
 
+def id_space_stress(ctx, count):
+    """Many simultaneously live nodes: every one retrievable, no two sharing an id (a short or coarse id scheme only shows here)."""
+    nodes = [Node("n") for _ in range(count)]
+    ctx.evaluated(count)
+    ctx.count("id_stress_nodes", count)
+    ids = {}
+    for n in nodes:
+        if n.id in ids:
+            ctx.violation("id-collision-among-live-nodes", f"two of {count} simultaneously live nodes share the id {n.id!r}", {"id_stress": count})
+            break
+        ids[n.id] = n
+    else:
+        for n in nodes[:: max(1, count // 2000)]:
+            if Node.get_node_instance(n.id) is not n:
+                ctx.violation("live-node-not-retrievable|id-stress", f"one of {count} live nodes is not retrievable by its id", {"id_stress": count})
+                break
+    for n in nodes:
+        Node.store.pop(n.id, None)
+    ctx.distinct(("id-stress", count))
+
+
 def run(ctx, params):
     if params.get("repo_tests"):
         from vlib import repotests
@@ -317,6 +359,8 @@ def run(ctx, params):
         return
     gen = treegen.Gen()
     Node.store.clear()  # start every shard from an empty registry (harness hygiene, not an operation under test)
+    if params.get("histories"):
+        id_space_stress(ctx, 150_000 if ctx.tier == "quick" else 300_000)
     for h in range(params["histories"]):
         ctx.case(one_history, ctx, gen, h, seconds=60.0)
         ctx.count("histories")
@@ -324,6 +368,10 @@ def run(ctx, params):
 
 
 def replay(ctx, witness):
+    if "id_stress" in witness:
+        id_space_stress(ctx, witness["id_stress"])
+        ctx.distinct(1)
+        return
     # histories are replayed from the seed: the witness documents the operations; re-run a short burst with the same monitor
     gen = treegen.Gen()
     for h in range(20):
